@@ -193,7 +193,33 @@ TMETH = {
     'float': _m_to_dtype(F32),
     'double': _m_to_dtype(F64),
     'detach': lambda it, x: x,
+    'mean': lambda it, x, dim=None, keepdim=False: _t_reduce(x, dim, keepdim, True),
+    'sum': lambda it, x, dim=None, keepdim=False: _t_reduce(x, dim, keepdim, False),
 }
+
+
+def _t_reduce(x, dim, keepdim, mean):
+    if dim is None or not is_conc(dim):
+        raise Unsupported('reduction over all / symbolic axes')
+    d = dim % x.ndim
+    n = x.shape[d]
+    if not (is_conc(n) and n <= 16):
+        raise Unsupported('reduction over a symbolic extent')
+    xs = x.snap()
+    shape = list(x.shape)
+    if keepdim:
+        shape[d] = 1
+    else:
+        del shape[d]
+
+    def elem(idx):
+        idx = list(idx)
+        out = ZERO
+        for k in range(n):
+            src = idx[:d] + [k] + (idx[d + 1:] if keepdim else idx[d:])
+            out = out + xs(src)
+        return out * Fr(1, n) if mean else out
+    return fresh_like(shape, elem, x)
 
 
 def tensor_bin(op, a, b):
@@ -379,6 +405,31 @@ def _np_pad(x, pw, mode='constant'):
     return IArr((simp(I(n) + I(a) + I(b)),), lambda k: x.elem([WRAP(simp(I(k[0]) - I(a)), I(n))]), x.den, x.dtype)
 
 
+def _np_clip(x, lo, hi):
+    if not isinstance(x, IArr) or x.den != 1:
+        raise Unsupported('np.clip of a non-integer array')
+    return IArr(x.shape, lambda k: z3.If(I(x.elem(k)) < I(lo), I(lo), z3.If(I(x.elem(k)) > I(hi), I(hi), I(x.elem(k)))), 1, x.dtype)
+
+
+def _np_minmax(kind):
+    def f(a, b):
+        A, Bq = as_iarr(a), as_iarr(b)
+        ref = A or Bq
+        if ref is None or (A and A.den != 1) or (Bq and Bq.den != 1):
+            raise Unsupported('np.%s' % kind)
+        ev = lambda v, k: I(v.elem(k)) if isinstance(v, IArr) else I(v)
+        if kind == 'minimum':
+            return IArr(ref.shape, lambda k: z3.If(ev(a, k) <= ev(b, k), ev(a, k), ev(b, k)), 1, ref.dtype)
+        return IArr(ref.shape, lambda k: z3.If(ev(a, k) >= ev(b, k), ev(a, k), ev(b, k)), 1, ref.dtype)
+    return f
+
+
+def _np_abs(x):
+    if not isinstance(x, IArr) or x.den != 1:
+        raise Unsupported('np.abs')
+    return IArr(x.shape, lambda k: z3.If(I(x.elem(k)) < 0, -I(x.elem(k)), I(x.elem(k))), 1, x.dtype)
+
+
 def _np_ones(n):
     if isinstance(n, (tuple, list)):
         n = n[0]
@@ -483,7 +534,8 @@ def setup_namespaces():
     F_NS = NS('F', {'conv2d': f_conv2d, 'conv_transpose2d': f_conv_transpose2d, 'pad': f_pad,
                     'avg_pool2d': f_avg_pool2d, 'interpolate': f_interpolate})
     NP_NS = NS('np', {'arange': _np_arange, 'asanyarray': lambda x: x, 'fmod': _np_fmod, 'where': _np_where,
-                      'array': _np_array, 'pad': _np_pad, 'ones': _np_ones, 'outer': _np_outer,
+                      'array': _np_array, 'pad': _np_pad, 'clip': _np_clip, 'minimum': _np_minmax('minimum'), 'maximum': _np_minmax('maximum'),
+                      'abs': _np_abs, 'ones': _np_ones, 'outer': _np_outer,
                       'stack': _np_stack, 'atleast_2d': _np_atleast_2d, 'repeat': _np_repeat,
                       'copy': _np_copy, 'sqrt': _np_sqrt, 'ndarray': TY_NDARRAY, 'load': Opaque_('np.load')})
     PYWT_NS = NS('pywt', {'dwt_coeff_len': _dwt_coeff_len, 'Wavelet': TY_WAVELET})
